@@ -41,8 +41,8 @@ type executor struct {
 	held  []api.Function
 	hargs [][]uint64
 
-	subs   []Op      // pending in-call sub-ops of the current step
-	subObs []string  // their observations
+	subs   []Op     // pending in-call sub-ops of the current step
+	subObs []string // their observations
 	out    *childOut
 	rng    *core.Rng // churn only
 	ring   [64]any
